@@ -189,10 +189,10 @@ inductive CompKind | normal | parentDir | curDir
 def classify (c : Name) : CompKind :=
   if c = ['.', '.'] then .parentDir else if c = ['.'] then .curDir else .normal
 
-/-- `Path::components` keeps a leading `.` only. -/
-def normComps : List Name → List Name
-  | [] => []
-  | c :: rest => c :: rest.filter (· ≠ ['.'])
+/-- `Path::components` drops every `.` except a leading one, and the walk skips that one
+(`CurDir => continue`): together, `.` components vanish. (The `CurDir` arm itself is pinned by
+the skeleton equality in `Props/C04.lean`.) -/
+def normComps (cs : List Name) : List Name := cs.filter (· ≠ ['.'])
 
 def actOn (a : CompAct) (buf : List Char) (c : Name) : Option (List Char) :=
   match a with
@@ -231,10 +231,12 @@ structure RegSt where
   idx : Idx
 
 /-- The final component, if it is a real name (`file_stem()?` / `extension_of`). -/
-def lastName (m : Member) : Option Name :=
-  match (normComps m.comps).getLast? with
+def lastNameOf (cs : List Name) : Option Name :=
+  match cs.getLast? with
   | none => none
   | some l => if classify l = .normal then some l else none
+
+def lastName (m : Member) : Option Name := lastNameOf (normComps m.comps)
 
 /-- One token; `none` is the closure's early `return None` (`?`). -/
 def tokStep (m : Member) (st : RegSt) : Tok → Option RegSt
@@ -316,18 +318,21 @@ def viewOfIdx (i : Idx) : View where
 
 /-! ### the same, written directly (used by the proofs; `register_eq` connects them) -/
 
-def parseMember (m : Member) : Option Reg :=
-  if m.abs then none else
-  if (normComps m.comps).isEmpty then none else
-  match walk .push .pop .skip (normComps m.comps).dropLast [] with
+/-- Path (normalised components) to ids: the part of `register_file` before the maps are touched. -/
+def parseCore (cs : List Name) (isFile : Bool) (bytes : Bytes) : Option Reg :=
+  if cs.isEmpty then none else
+  match walk .push .pop .skip cs.dropLast [] with
   | none => none
   | some pbuf =>
-    match lastName m with
+    match lastNameOf cs with
     | none => none
     | some l =>
       match idPush pbuf (splitExt l).1 with
       | none => none
-      | some ibuf => some { parent := pbuf, id := ibuf, file := if m.isFile then some (extensionOf l, m.bytes) else none }
+      | some ibuf => some { parent := pbuf, id := ibuf, file := if isFile then some (extensionOf l, bytes) else none }
+
+def parseMember (m : Member) : Option Reg :=
+  if m.abs then none else parseCore (normComps m.comps) m.isFile m.bytes
 
 def applyReg (r : Reg) (i : Idx) : Idx :=
   let files := match r.file with
@@ -344,10 +349,7 @@ def indexR : List Reg → Idx
   | r :: rs => applyReg r (indexR rs)
 
 /-- The optional `./` prefix stripped. -/
-def Member.norm (m : Member) : List Name :=
-  match m.comps with
-  | c :: rest => if c = ['.'] then rest else c :: rest
-  | [] => []
+def Member.norm (m : Member) : List Name := normComps m.comps
 
 /-- `ms` is an archive of `t`: every file exactly once with its bytes, every directory at most
 once (possibly never), nothing else, any order, each path optionally prefixed by `./`. -/
